@@ -409,7 +409,9 @@ func mutateLog(r *Rng, text string) string {
 		lines = append(lines[:i], append([]string{Pick(r, []string{"# Lap", "# Lap 3", "# Lap x: 00:00:01.000", "# Lap 1: 00:02", "# Lap 1: 00:02:03",
 			"# Lap 1: aa:bb:cc.ddd", "# Lap 1: 00:02:03.", "# Lap -1: 00:00:01.000", "# Lap 99999999999999999999: 00:00:01.000", "# Lap 2 : 00:00:01.000",
 			"# End Point", "# End Point: nowhere", "# End Point: 1,2@3", "# End Point: 1, 2 @ 3", "# End Point: 1.2.3, 4 @ 5", "# End Point: -, - @ -",
-			"# Vehicle", "# Vehicle:", "#", "# ", "#x", "# :", "# a:b:c", "# Lap 1: 1:2:3.4 trailing", "# Lap 0: 99999999999:0:0.0"})}, lines[i:]...)...)
+			"# Vehicle", "# Vehicle:", "#", "# ", "#x", "# :", "# a:b:c", "# Lap 1: 1:2:3.4 trailing", "# Lap 0: 99999999999:0:0.0",
+			"# Lap 1: 00:02:03.202_L", "# Lap 1: 00:02:03.2_0", "# Lap 1: 0_0:02:03.202", "# Lap 1: 00:02:03.1_000", "# Lap 1: 1_0:2:3.4", "# Lap 1_0: 00:00:01.000",
+			"# Lap 1: +1:-2:+3.+4", "# Lap 1: 00:02:03.202x", "# Lap 1:\t00:02:03.202", "# Lap 1: 0x1:2:3.4", "# Lap 1: 1e1:2:3.4", "# Lap 1: 00:02:03.2e1"})}, lines[i:]...)...)
 	case 9: // overlong line (rare: costly to evaluate)
 		if r.Chance(0.15) {
 			lines[i] = l + strings.Repeat("9", 70000)
